@@ -17,7 +17,7 @@ func init() {
 		ID: "C10", Run: runC10, QuickRuns: 250000, ThoroughRuns: 10000000,
 		Rule:       "Each run: 1..5 frames laid out by the reference builder from a section plan (sections in any order, repeated, interleaved padding, transform ids, any flags/seq/protocol id) pass through the fault transport - truncation at any cut point, corruption of 1..3 structural bytes with boundary values (magic, size field incl. 0/1/0x3fff/0x4000/0x4001/0x8000/0xffff, protocol id, transform count, info ids, counts, string lengths), splices (a frame section repeated or swapped) - and reach Decode through a fragmenting simulated Source and DecodeFromBytes. One-directional oracle: no panic or hang; consumption <= 14 + declared size and <= delivered bytes; success only if the independent parser's necessary conditions hold, and then header/payload lengths and both maps equal the reference's.",
 		Components: realComponents,
-		Probes:     []string{"ref.accepts", "ref.rejects", "size_field_ge_0x4001", "size_field_0x4000", "unknown_info_id", "duplicate_keys", "splice", "impl.accepts"},
+		Probes:     []string{"ref.accepts", "ref.rejects", "size_field_ge_0x4001", "size_field_0x4000", "unknown_info_id", "duplicate_keys", "splice", "impl.accepts", "every_cut_point_enumerated"},
 	})
 }
 
@@ -138,6 +138,8 @@ func runC10(c *sim.Ctx) {
 			c.Count("fault.fired.splice")
 			c.Count("probe.splice")
 		}
+		pre := append([]byte(nil), d...)
+		baseDesc := desc
 		if mode == 1 || mode == 3 {
 			cut := st.Choose(len(d) + 1)
 			if st.Chance(1, 2) && len(marks) > 0 {
@@ -154,80 +156,95 @@ func runC10(c *sim.Ctx) {
 		if desc == "" {
 			desc = " intact"
 		}
-		f := ref.ParseTTFrame(d)
-		if f.OK {
-			c.Count("probe.ref.accepts")
-		} else {
-			c.Count("probe.ref.rejects")
-			c.NonTriv = true
-		}
-		if f.HaveMeta && f.SizeField >= 0x4001 {
-			c.Count("probe.size_field_ge_0x4001")
-		}
-		if f.HaveMeta && f.SizeField == 0x4000 {
-			c.Count("probe.size_field_0x4000")
-		}
-		if f.UnknownInfo {
-			c.Count("probe.unknown_info_id")
-		}
-		if f.DupKeys {
-			c.Count("probe.duplicate_keys")
-		}
-		c.Tracef("frame%d %d bytes (%d sections, %d transforms, proto %#x):%s => reference ok=%v (%s) declared=%d", k, len(frame), len(plan), len(transforms), proto, desc, f.OK, f.Reason, f.Declared)
-		c.Abs(0x500000 | uint32(mode)<<16 | sizeBucket(len(d))<<4 | b2u(f.OK))
-		c.Ev(uint64(len(d)), uint64(b2u(f.OK)))
+		deliver := func(d []byte, desc string) {
+			f := ref.ParseTTFrame(d)
+			if f.OK {
+				c.Count("probe.ref.accepts")
+			} else {
+				c.Count("probe.ref.rejects")
+				c.NonTriv = true
+			}
+			if f.HaveMeta && f.SizeField >= 0x4001 {
+				c.Count("probe.size_field_ge_0x4001")
+			}
+			if f.HaveMeta && f.SizeField == 0x4000 {
+				c.Count("probe.size_field_0x4000")
+			}
+			if f.UnknownInfo {
+				c.Count("probe.unknown_info_id")
+			}
+			if f.DupKeys {
+				c.Count("probe.duplicate_keys")
+			}
+			c.Tracef("frame%d %d bytes (%d sections, %d transforms, proto %#x):%s => reference ok=%v (%s) declared=%d", k, len(frame), len(plan), len(transforms), proto, desc, f.OK, f.Reason, f.Declared)
+			c.Abs(0x500000 | uint32(mode)<<16 | sizeBucket(len(d))<<4 | b2u(f.OK))
+			c.Ev(uint64(len(d)), uint64(b2u(f.OK)))
 
-		judge := func(site string, dp ttheader.DecodeParam, err error, consumed int, known bool) {
-			facts := sim.F{"ref_ok": f.OK, "reason": f.Reason, "size_field_ge_0x4001": f.HaveMeta && f.SizeField >= 0x4001}
-			if known {
-				if consumed > len(d) {
-					c.Fail("OVER_CONSUMED", site, facts, "consumed %d bytes of a %d-byte input;%s", consumed, len(d), desc)
+			judge := func(site string, dp ttheader.DecodeParam, err error, consumed int, known bool) {
+				facts := sim.F{"ref_ok": f.OK, "reason": f.Reason, "size_field_ge_0x4001": f.HaveMeta && f.SizeField >= 0x4001}
+				if known {
+					if consumed > len(d) {
+						c.Fail("OVER_CONSUMED", site, facts, "consumed %d bytes of a %d-byte input;%s", consumed, len(d), desc)
+					}
+					if f.HaveMeta && consumed > 14+f.Declared {
+						c.Fail("OVER_CONSUMED", site, facts, "consumed %d bytes, more than 14 + declared header size %d;%s", consumed, f.Declared, desc)
+					}
 				}
-				if f.HaveMeta && consumed > 14+f.Declared {
-					c.Fail("OVER_CONSUMED", site, facts, "consumed %d bytes, more than 14 + declared header size %d;%s", consumed, f.Declared, desc)
+				if err != nil {
+					return
+				}
+				c.Count("probe.impl.accepts")
+				if !f.OK && !f.UnknownInfo {
+					c.Fail("ACCEPTED_INVALID_FRAME", site, facts, "Decode succeeded although a necessary condition fails: %s (size field %#x, declared %d, %d bytes delivered);%s", f.Reason, f.SizeField, f.Declared, len(d), desc)
+				}
+				if dp.HeaderLen != f.HeaderLen {
+					c.Fail("FRAME_LEN", site, facts, "header length %d, must be 14 + declared size = %d;%s", dp.HeaderLen, f.HeaderLen, desc)
+				}
+				if want := int(f.TotalLen) + 4 - f.HeaderLen; dp.PayloadLen != want {
+					c.Fail("FRAME_LEN", site, facts, "payload length %d, must be total length + 4 - header length = %d;%s", dp.PayloadLen, want, desc)
+				}
+				if uint16(dp.Flags) != f.Flags || dp.SeqID != f.Seq || byte(dp.ProtocolID) != f.Proto {
+					c.Fail("FRAME_FIELDS", site, facts, "flags/seq/protocol differ from the delivered frame;%s", desc)
+				}
+				if f.OK && !f.DupKeys {
+					if !mapsEqualInt(dp.IntInfo, f.Int) || !mapsEqualStr(dp.StrInfo, f.Str) {
+						c.Fail("FRAME_MAPS", site, facts, "decoded maps (int %d, str %d entries) differ from the info sections (int %d, str %d);%s", len(dp.IntInfo), len(dp.StrInfo), len(f.Int), len(f.Str), desc)
+					}
 				}
 			}
-			if err != nil {
-				return
+			{
+				scfg := sim.RandomSourceCfg(cfg, len(d))
+				src := sim.NewSource(c, fmt.Sprintf("r%d", k), d, scfg)
+				src.BeginCall(len(d))
+				dr := bufiox.NewDefaultReader(src)
+				var dp ttheader.DecodeParam
+				var err error
+				c.GuardNoOOM("Decode/DefaultReader", func() { dp, err = ttheader.Decode(ctx, dr) })
+				judge("Decode/DefaultReader", dp, err, dr.ReadLen(), true)
+				dr.Release(nil)
 			}
-			c.Count("probe.impl.accepts")
-			if !f.OK && !f.UnknownInfo {
-				c.Fail("ACCEPTED_INVALID_FRAME", site, facts, "Decode succeeded although a necessary condition fails: %s (size field %#x, declared %d, %d bytes delivered);%s", f.Reason, f.SizeField, f.Declared, len(d), desc)
-			}
-			if dp.HeaderLen != f.HeaderLen {
-				c.Fail("FRAME_LEN", site, facts, "header length %d, must be 14 + declared size = %d;%s", dp.HeaderLen, f.HeaderLen, desc)
-			}
-			if want := int(f.TotalLen) + 4 - f.HeaderLen; dp.PayloadLen != want {
-				c.Fail("FRAME_LEN", site, facts, "payload length %d, must be total length + 4 - header length = %d;%s", dp.PayloadLen, want, desc)
-			}
-			if uint16(dp.Flags) != f.Flags || dp.SeqID != f.Seq || byte(dp.ProtocolID) != f.Proto {
-				c.Fail("FRAME_FIELDS", site, facts, "flags/seq/protocol differ from the delivered frame;%s", desc)
-			}
-			if f.OK && !f.DupKeys {
-				if !mapsEqualInt(dp.IntInfo, f.Int) || !mapsEqualStr(dp.StrInfo, f.Str) {
-					c.Fail("FRAME_MAPS", site, facts, "decoded maps (int %d, str %d entries) differ from the info sections (int %d, str %d);%s", len(dp.IntInfo), len(dp.StrInfo), len(f.Int), len(f.Str), desc)
+			{
+				flat := append([]byte(nil), d...)
+				var dp ttheader.DecodeParam
+				var err error
+				c.GuardNoOOM("DecodeFromBytes", func() { dp, err = ttheader.DecodeFromBytes(ctx, flat) })
+				judge("DecodeFromBytes", dp, err, 0, false)
+				if firstDiff(flat, d) >= 0 {
+					c.Fail("INPUT_MODIFIED", "DecodeFromBytes", sim.F{}, "the input was modified")
 				}
 			}
 		}
-		{
-			scfg := sim.RandomSourceCfg(cfg, len(d))
-			src := sim.NewSource(c, fmt.Sprintf("r%d", k), d, scfg)
-			src.BeginCall(len(d))
-			dr := bufiox.NewDefaultReader(src)
-			var dp ttheader.DecodeParam
-			var err error
-			c.GuardNoOOM("Decode/DefaultReader", func() { dp, err = ttheader.Decode(ctx, dr) })
-			judge("Decode/DefaultReader", dp, err, dr.ReadLen(), true)
-			dr.Release(nil)
+		deliver(d, desc)
+		// fault enumeration over crash points: every cut point of this frame
+		limit, den := 300, 40
+		if c.Tier == "thorough" {
+			limit, den = 2048, 10
 		}
-		{
-			flat := append([]byte(nil), d...)
-			var dp ttheader.DecodeParam
-			var err error
-			c.GuardNoOOM("DecodeFromBytes", func() { dp, err = ttheader.DecodeFromBytes(ctx, flat) })
-			judge("DecodeFromBytes", dp, err, 0, false)
-			if firstDiff(flat, d) >= 0 {
-				c.Fail("INPUT_MODIFIED", "DecodeFromBytes", sim.F{}, "the input was modified")
+		if len(pre) <= limit && cfg.Chance(1, den) {
+			c.Count("probe.every_cut_point_enumerated")
+			for cut := 0; cut <= len(pre); cut++ {
+				c.Count("fault.fired.truncation")
+				deliver(pre[:cut], fmt.Sprintf("%s cut@%d/%d (enumerated)", baseDesc, cut, len(pre)))
 			}
 		}
 	}
